@@ -25,7 +25,7 @@ def cases(seed, tier):
         out.append({"group": "extra", "kind": "switch", "seed": sub_seed(seed, "c08xs", i), "method": ["rk45", "rk45", "rk23", "rk45"][i % 4],
                     "holder": ["explicit", "nn", "em"][(i // 4) % 3], "decreasing": rng.random() < 0.4, "nt": rng.choice([2, 3, 5]),
                     "where": rng.choice(["early", "middle", "late"]), "cot": rng.choice(["last", "all", "cancel"]), "order": 2 if i % 5 == 4 else 1,
-                    "cg": i % 2})
+                    "cg": i % 2, "dead": i % 3 == 2})
     nsh = 24 if tier == "quick" else 200
     for i in range(nsh):
         rng = random.Random(sub_seed(seed, "c08y", i))
@@ -84,6 +84,8 @@ def run_switch(desc):
         ncall[0] += 1
         if float(t) < tc:            # python control flow on t: the tensor pb is used only before the switching time
             return -(pa + pb) * y
+        if desc.get("dead"):
+            return torch.zeros_like(y)      # switched off: this evaluation depends on none of t, y and the parameters
         return -pa * y
 
     holder = desc["holder"]
@@ -113,7 +115,7 @@ def run_switch(desc):
         mod = E(a, b)
         fcn, params = mod.forward, ()
     method = desc["method"]
-    mech = "switch:%s:%s:%s" % (method, holder, "dec" if desc["decreasing"] else "inc")
+    mech = "switch%s:%s:%s:%s" % ("_dead" if desc.get("dead") else "", method, holder, "dec" if desc["decreasing"] else "inc")
     if method == "rk4":
         # fixed step: refine the grid so that the discretisation error is far below the tolerance; the switching time is made a grid point
         fine = []
@@ -134,7 +136,10 @@ def run_switch(desc):
     def exact(y0_, a_, b_):
         def cum(t):     # int_{ts[0]}^{t} [s < tc] ds
             return min(t, tc) - min(ts_l[0], tc)
-        rows = [y0_ * torch.exp(-a_ * (t - ts_l[0]) - b_ * cum(t)) for t in ts_l]
+        if desc.get("dead"):
+            rows = [y0_ * torch.exp(-(a_ + b_) * cum(t)) for t in ts_l]
+        else:
+            rows = [y0_ * torch.exp(-a_ * (t - ts_l[0]) - b_ * cum(t)) for t in ts_l]
         return torch.stack(rows)
     try:
         yt = solve_ivp(fcn, ts_run, y0, params=params, method=method, **opts)[idx]
